@@ -311,7 +311,7 @@ def check(fx, rep, tier):
     rep.floor("R11.4", adds, 2, "calls of StorageLayout::add")
     # ---------------------------------------------------------------- R11.5 slot-number independence
     KW = "vm::value::known::KnownWord"
-    rows5 = {r[0]: r for r in tables.read("const_inspections.tsv")}
+    rows5 = tables.Keyed("const_inspections.tsv", fx)
     found5 = {}
     for b in fx.fn_bodies():
         if not b.get("hir") or not ("tc::lift" in b["def"] or "tc::rule" in b["def"]):
